@@ -20,7 +20,7 @@ func init() {
 			"D3 at least one location — every Package allocated in code reachable from an extractor's Extract gets a non-empty Locations value at allocation or through a later store in the same function; " +
 			"D4 field-by-field conversion — packageToProto, purlToProto, layerDetailsToProto, sourceCodeIdentifierToProto, qualifiersToProto read every field of their source struct and store each into the like-named destination field; ToCDX and ToSPDX23 write ToPURL(pkg).String() of the same package and ToCDX copies name, version and every location; " +
 			"D5 the package index is keyed by the package URL's own type and name (rule shared with C20-D4); D6 panic discipline (bounds prover, no single-value assertions outside Metadata) over purl, packageindex, converter and binary/proto (generated files excluded). " +
-			"Added in round 3: D7 the formats' audited omissions (empty name/version) are shared from C03. NOT decided: non-empty names (values), percent-encoding round trip (third-party packageurl-go), SPDX/CDX library behaviour, whether SBOM formats carry locations/layer details verbatim.",
+			"Added in round 3: D7 the formats' audited omissions (empty name/version) are shared from C03. Added in round 7: D9 results of functions believed to return nil sometimes (a constant nil return, or a nil-compared field handed out) are dereferenced only under a != nil test. NOT decided: non-empty names (values), percent-encoding round trip (third-party packageurl-go), SPDX/CDX library behaviour, whether SBOM formats carry locations/layer details verbatim.",
 		ThoroughGOOS: []string{"linux", "windows", "darwin"},
 		Run:          runC14,
 		Controls: []Mutant{
@@ -63,6 +63,8 @@ func runC14(p *Prog, r *Report) {
 	r.Rule("D7-wellformed-omissions", "records without a name or version are left out exactly where the formats' audited omissions say (shared with C03 D3)")
 	c03Omissions(p, r, "D7-wellformed-omissions", p.FuncsIn(c03Packages...))
 	frozenHelperErrorExits(p, r, "D7-wellformed-omissions", c14HelperErrorExits)
+	r.Rule("D9-nullable-results", "the result of a conversion that answers nil for some packages is tested before it is used")
+	nullableResultDerefs(p, r, "D9-nullable-results", append(p.FuncsIn("extractor/...", "purl", "packageindex", "converter", "binary/proto", "inventory", "."), p.FuncsIn("detector/...", "enricher/...", "annotator/...")...), "the result of %s is nil for some packages (an SBOM component that only has a CPE has no package URL) and is dereferenced here without a test: Ecosystem()/ToPURL() of such a package — and the conversion of any scan result that contains one — ends in a nil-pointer panic")
 	for _, fn := range p.FuncsIn("purl", "packageindex", "converter", "binary/proto") {
 		pk := p.pkgOfFn(fn)
 		if pk != nil && p.isGenerated(pk, fn.Pos()) {
